@@ -122,9 +122,14 @@ def check_table(model, table, ta, tol, enabled, out, stats, phase_arg=""):
                 return
         if set(rows) != set(model.comps):
             return
+        row_enabled = enabled
         if not coherent:
+            # the accounting identities of C02 are read off the row's own
+            # cells and hold however a phase list is interpreted
             stats["skip_incoherent_phase_state"] += 1
-            continue
+            row_enabled = enabled & {"C02"}
+            if not row_enabled:
+                continue
         for n, r in rows.items():
             for c in ("Vin (V)", "Vout (V)", "Iin (A)", "Iout (A)", "Power (W)", "Loss (W)"):
                 if not num(r[c]) or math.isnan(r[c]) or math.isinf(r[c]):
@@ -144,7 +149,7 @@ def check_table(model, table, ta, tol, enabled, out, stats, phase_arg=""):
         if not phys:
             stats["nonphysical_tables"] += 1
             continue
-        _check_rows(model, table, ph, rows, ta, tol, enabled, out, stats)
+        _check_rows(model, table, ph, rows, ta, tol, row_enabled, out, stats)
         if out:
             return
     if out:
